@@ -440,7 +440,16 @@ func inFindStringSubmatch(fr *frame, args []value) value {
 	re := (*args[0].(*value)).(nativeBox).v.(*regexp.Regexp)
 	s, ok := args[1].(string)
 	if !ok {
-		panic(pathAbort{"assume", "regexp match on a symbolic string is outside the model"})
+		// does the search find a match at all?  decided by the solver (str.in_re)
+		lan, err := searchRegLan(re.String())
+		if err != nil {
+			panic(pathAbort{"assume", "regexp match on a symbolic string is outside the model (" + err.Error() + ")"})
+		}
+		fr.i.pc.note("regexp search on a symbolic string decided through str.in_re; submatch contents of a successful match are outside the model")
+		if !fr.i.pc.decide("(str.in_re "+strTerm(args[1])+" "+lan+")", fr) {
+			return []value(nil)
+		}
+		panic(pathAbort{"assume", "submatches of a regexp match on a symbolic string are outside the model"})
 	}
 	res := re.FindStringSubmatch(s)
 	if res == nil {
